@@ -1,26 +1,283 @@
 package main
 
 import (
+	"flag"
 	"fmt"
+	"go/types"
 	"os"
+	"sort"
+	"strings"
 
-	"golang.org/x/tools/go/packages"
 	"golang.org/x/tools/go/ssa"
-	"golang.org/x/tools/go/ssa/ssautil"
 )
 
-func main() {
-	cfg := &packages.Config{Mode: packages.LoadAllSyntax, Dir: "/repo", BuildFlags: []string{"-tags=verif"}}
-	pkgs, err := packages.Load(cfg, "./...")
-	if err != nil {
-		fmt.Println(err)
-		os.Exit(2)
+func (w *World) signatureFor(fc *FuncContract) (*types.Signature, types.Type) {
+	// iface contract "Iface.Method": find the interface type in fc.Pkg
+	if fc.IsIface {
+		parts := strings.SplitN(fc.Name, ".", 2)
+		if len(parts) != 2 {
+			return nil, nil
+		}
+		var obj types.Object
+		if fc.Pkg == "" {
+			obj = types.Universe.Lookup(parts[0])
+		} else if p := w.tpkgs[fc.Pkg]; p != nil {
+			obj = p.Scope().Lookup(parts[0])
+		}
+		if obj == nil {
+			return nil, nil
+		}
+		it, ok := obj.Type().Underlying().(*types.Interface)
+		if !ok {
+			return nil, nil
+		}
+		for i := 0; i < it.NumMethods(); i++ {
+			if it.Method(i).Name() == parts[1] {
+				return it.Method(i).Type().(*types.Signature), obj.Type()
+			}
+		}
+		return nil, nil
 	}
-	prog, spkgs := ssautil.AllPackages(pkgs, ssa.InstantiateGenerics|ssa.GlobalDebug)
-	prog.Build()
-	for _, p := range spkgs {
-		if p != nil {
-			fmt.Println(p.Pkg.Path(), len(p.Members))
+	if fn := w.fnByKey[fc.Key]; fn != nil {
+		return fn.Signature, nil
+	}
+	return nil, nil
+}
+
+// lemmaVC builds the proof obligations of a lemma.
+func (w *World) lemmaVC(lm *Lemma) *VC {
+	vc := &VC{w: w, enc: NewEnc(w), name: "lemma." + lm.Name,
+		vals: map[ssa.Value]string{}, tuples: map[ssa.Value][]string{}, ordinals: map[string]int{},
+		globals: map[*ssa.Global]int{}, params: map[string]SpecVal{}, assumed: map[string]bool{}, usedLemmas: map[string]bool{}, usedFns: map[string]bool{},
+		debugVars: map[string][]debugDef{}, callCount: map[string]int{}}
+	vc.pkg = w.pkgForFile(lm.File)
+	vc.defTags = lm.Tags
+	func() {
+		defer func() {
+			if r := recover(); r != nil {
+				if se, ok := r.(specErr); ok {
+					vc.unsup = "contract-binding: " + se.msg
+					return
+				}
+				if u, ok := r.(unsupportedErr); ok {
+					vc.unsup = u.msg
+					return
+				}
+				panic(r)
+			}
+		}()
+		vc.declare("alloc!0", "Int")
+		st := &State{heap: map[string]string{}, ghost: map[string]string{}, alloc: "alloc!0"}
+		vc.entry = st
+		env := &Env{vc: vc, st: st, old: st, vars: map[string]SpecVal{}, pkg: vc.pkg}
+		for _, p := range lm.Params {
+			gt, srt := vc.sortOfTypeExpr(p.T, env)
+			n := "p_" + p.Name
+			vc.declare(n, srt)
+			sv := SpecVal{T: n, Sort: srt, GoT: gt}
+			env.vars[p.Name] = sv
+			vc.params[p.Name] = sv
+			if gt != nil {
+				vc.assume("true", vc.typeInv(st, n, gt))
+			}
+		}
+		for _, c := range lm.Requires {
+			vc.assume("true", vc.evalBool(c.Expr, env))
+		}
+		cn := vc.oblige("canary", "requires", "true", "false", nil, 0, "lemma precondition must be satisfiable")
+		cn.Canary = true
+		var measure string
+		if lm.Decreases != nil {
+			measure = vc.evalInt(lm.Decreases.Expr, env)
+		}
+		for _, h := range lm.Hints {
+			if h.Kind == "use" {
+				if call, ok := h.Expr.(SCall); ok && call.Fn == lm.Name {
+					// induction hypothesis: needs a strictly smaller, non-negative measure
+					if lm.Decreases == nil {
+						specFail("lemma %s uses itself without a decreases clause", lm.Name)
+					}
+					vars := map[string]SpecVal{}
+					for i, p := range lm.Params {
+						gt, srt := vc.sortOfTypeExpr(p.T, env)
+						a := vc.materialize(vc.eval(call.Args[i], env), env)
+						vars[p.Name] = SpecVal{T: a.T, Sort: srt, GoT: gt}
+					}
+					n := &Env{vc: vc, st: st, old: st, vars: vars, pkg: vc.pkg}
+					m2 := vc.evalInt(lm.Decreases.Expr, n)
+					// the IH may be used only where its own precondition holds and the measure decreases;
+					// instantiate as (req' && 0<=m2<m) ==> ens'
+					var reqs, enss []string
+					for _, c := range lm.Requires {
+						reqs = append(reqs, vc.evalBool(c.Expr, n))
+					}
+					for _, c := range lm.Ensures {
+						enss = append(enss, vc.evalBool(c.Expr, n))
+					}
+					vc.assume("true", implies(and(append(reqs, sx("<=", "0", m2), sx("<", m2, measure))...), and(enss...)))
+					continue
+				}
+			}
+			vc.applyHint(h, env, "true")
+		}
+		for _, c := range lm.Ensures {
+			vc.oblige("lemma", c.Label, "true", vc.evalBool(c.Expr, env), vc.tagsFor(c), 0, "lemma conclusion: "+c.Text)
+		}
+	}()
+	return vc
+}
+
+func (vc *VC) finishAxioms() {
+	// include axioms that mention a spec function used by this VC (fixpoint)
+	if vc.unsup != "" {
+		return
+	}
+	defer func() {
+		if r := recover(); r != nil {
+			if se, ok := r.(specErr); ok {
+				vc.unsup = "contract-binding (axiom): " + se.msg
+				return
+			}
+			panic(r)
+		}
+	}()
+	included := map[*Axiom]bool{}
+	for changed := true; changed; {
+		changed = false
+		for _, ax := range vc.w.cs.Axioms {
+			if included[ax] {
+				continue
+			}
+			rel := false
+			for _, id := range identsOf(ax.Expr) {
+				if vc.usedFns[id] {
+					rel = true
+				}
+			}
+			if !rel {
+				continue
+			}
+			included[ax] = true
+			changed = true
+			env := &Env{vc: vc, st: vc.entry, old: vc.entry, vars: map[string]SpecVal{}, pkg: vc.w.pkgForFile(ax.File)}
+			if env.pkg == nil {
+				env.pkg = vc.pkg
+			}
+			vc.axiomAsserts = append(vc.axiomAsserts, vc.evalBool(ax.Expr, env))
+			vc.assumed["axiom "+ax.Name] = true
 		}
 	}
+}
+
+func main() {
+	if len(os.Args) < 2 {
+		fmt.Fprintln(os.Stderr, "usage: govc <check|vc|dump|list> ...")
+		os.Exit(2)
+	}
+	switch os.Args[1] {
+	case "vc":
+		cmdVC(os.Args[2:])
+	case "check":
+		cmdCheck(os.Args[2:])
+	case "list":
+		cmdList(os.Args[2:])
+	default:
+		fmt.Fprintln(os.Stderr, "unknown command", os.Args[1])
+		os.Exit(2)
+	}
+}
+
+func loadOrDie(repo string) *World {
+	w, err := LoadWorld(repo, "/verif/contracts")
+	if err != nil {
+		fmt.Fprintln(os.Stderr, "load:", err)
+		os.Exit(2)
+	}
+	if len(w.cs.Errors) > 0 {
+		for _, e := range w.cs.Errors {
+			fmt.Fprintln(os.Stderr, "contract error:", e)
+		}
+	}
+	return w
+}
+
+func cmdList(args []string) {
+	w := loadOrDie("/repo")
+	for _, fn := range w.repoFunctions() {
+		c := ""
+		if w.contractFor(fn) != nil {
+			c = " [contract]"
+		}
+		fmt.Printf("%s%s\n", fnKey(fn), c)
+	}
+}
+
+// cmdVC: debugging aid: generate and discharge the obligations of the functions whose key contains a substring.
+func cmdVC(args []string) {
+	fs := flag.NewFlagSet("vc", flag.ExitOnError)
+	repo := fs.String("repo", "/repo", "repository root")
+	timeout := fs.Int("t", 10, "per-obligation timeout (s)")
+	keep := fs.String("keep", "", "directory to keep SMT files in")
+	only := fs.String("only", "", "only obligations whose name contains this")
+	verbose := fs.Bool("v", false, "print solver output for failures")
+	fs.Parse(args)
+	w := loadOrDie(*repo)
+	dir := *keep
+	if dir == "" {
+		d, _ := os.MkdirTemp("", "govc")
+		defer os.RemoveAll(d)
+		dir = d
+	} else {
+		os.MkdirAll(dir, 0o755)
+	}
+	var vcs []*VC
+	for _, pat := range fs.Args() {
+		if strings.HasPrefix(pat, "lemma:") {
+			for _, n := range w.cs.LemmaOrder {
+				if strings.Contains(n, pat[6:]) {
+					vcs = append(vcs, w.lemmaVC(w.cs.Lemmas[n]))
+				}
+			}
+			continue
+		}
+		for _, fn := range w.repoFunctions() {
+			if strings.Contains(fnKey(fn), pat) {
+				fc := w.contractFor(fn)
+				vc := w.NewVC(fn, fc)
+				if err := vc.Generate(); err != nil {
+					fmt.Printf("%s: %v\n", vc.name, err)
+				}
+				vcs = append(vcs, vc)
+			}
+		}
+	}
+	var obls []*Obligation
+	for _, vc := range vcs {
+		vc.finishAxioms()
+		if vc.unsup != "" {
+			fmt.Printf("%s: NOT VERIFIED: %s\n", vc.name, vc.unsup)
+			continue
+		}
+		for _, o := range vc.obls {
+			if *only == "" || strings.Contains(o.Name, *only) {
+				obls = append(obls, o)
+			}
+		}
+	}
+	res := solveAll(obls, dir, *timeout, 2, 1, 6)
+	sort.SliceStable(res, func(i, j int) bool { return false })
+	bad := 0
+	for _, r := range res {
+		mark := "ok  "
+		if r.Result != "unsat" && r.Result != "ok-canary" {
+			mark = "FAIL"
+			bad++
+		}
+		fmt.Printf("%s %-9s %-8s %6.2fs %s  %s\n", mark, r.Result, r.Backend, r.Secs, r.Name, r.Pos)
+		if mark == "FAIL" && *verbose {
+			fmt.Println("     ", r.Info)
+			fmt.Println("     ", strings.ReplaceAll(r.Output, "\n", "\n      "))
+		}
+	}
+	fmt.Printf("%d obligations, %d not discharged\n", len(res), bad)
 }
